@@ -299,6 +299,36 @@ func (g *G) emitFunc(f *Func, stmts int) {
 			g.line("fmt.Println(%q, %s)", "in "+f.Name, strings.Join(as, ", "))
 		}
 	}
+	if f.Recv != nil && !f.Pure && !f.Rec && g.r.Chance(1, 3) {
+		// the receiver is a variable like a parameter: nil assigned to it is a nil of its type, and a method that
+		// guards its receiver can be called through it
+		for _, m := range f.Recv.Methods {
+			if !m.NilSafe || m.Name == f.Name {
+				continue
+			}
+			args, ok := g.simpleArgs(m.Params)
+			if !ok || strings.Contains(args, "r.") || args == "r" || strings.Contains(args, "(r") {
+				continue
+			}
+			var ls, lits []string
+			for range m.Results {
+				ls = append(ls, g.name("r"))
+			}
+			for _, rt := range f.Results {
+				lits = append(lits, g.typed(rt, g.literal(rt), true))
+			}
+			g.use("fmt")
+			g.line("if %s {", g.boolExpr(1))
+			g.ind++
+			g.line("r = nil")
+			g.line("%s := r.%s(%s)", strings.Join(ls, ", "), m.Name, args)
+			g.line("fmt.Println(%q, r == nil, %s)", g.name("n"), strings.Join(ls, ", "))
+			g.line("return %s", strings.Join(lits, ", "))
+			g.ind--
+			g.line("}")
+			break
+		}
+	}
 	n := stmts
 	for i := 0; i < n && g.budget > 0; i++ {
 		if len(f.Results) > 0 && g.r.Chance(1, 6) {
